@@ -1,0 +1,12 @@
+//go:build verif
+
+// Contracts for govc (contract-based deductive verification, see /verif/DESIGN.md).
+// Comment-only file: it adds no code and is compiled only with -tags verif.
+
+package sql
+
+// Each of the six migration streams (Update applies every one under its own stream
+// key) carries the statements of its own file: the local and the distributed variant
+// of a stream are different scripts. The binding is made by the compiler (go:embed),
+// so it is checked on the declarations.
+//@ sweep embeds [C18] LogScript=log.sql LogDistScript=log_dist.sql TracesScript=traces.sql TracesDistScript=traces_dist.sql ProfilesScript=profiles.sql ProfilesDistScript=profiles_dist.sql
